@@ -103,6 +103,36 @@ def run(ctx):
     et, wantp = et_norm if et_norm is not None else et, (("param", lp), ("param", pp), ("const", appkey))
     ctx.ob("C19.a", epw.qual, et == wantp, "password field = sha256(loginId ‖ sha256(password).hex ‖ APP_KEY).hex", func=epw.qual, file=file, construct="encrypt_password",
            detail={"term": show(et)[:260]}, fail=f"the login password derivation is `{show(et)[:200]}`")
+    # the SmartHome cloud (the other region family of the same login flow) salts with the login key of the selected server
+    SH = "msmart.cloud.SmartHomeCloud"
+    shp = ctx.fn(f"{SH}._Security.encrypt_password")
+    sht = summarize(prog, shp).return_term()
+    s_outer = sha_hex_text(sht)
+    s_parts = concat(s_outer, []) if s_outer is not None else []
+    s_inner = sha_hex_text(s_parts[1]) if len(s_parts) == 3 else None
+    KEYS = {True: "ad0ee21d48a64bf49f4fb583ab76e799", False: "ac21b9f9cbfe4ca5a88562ef25e2b768"}
+
+    def login_key_ok(x, recv):
+        """x is the login key of the selected server: the china key iff the client was created for the china server"""
+        x = strip(x)
+        flag = ("attr", ("param", recv), "_use_china_server")
+        if x[0] == "ite" and strip(x[1]) == flag:
+            return strip(x[2]) == ("const", KEYS[True]) and strip(x[3]) == ("const", KEYS[False])
+        if x[0] == "ite" and strip(x[1]) == ("un", "not", flag):
+            return strip(x[3]) == ("const", KEYS[True]) and strip(x[2]) == ("const", KEYS[False])
+        return False
+    salt = s_parts[2] if len(s_parts) == 3 else None
+    salt_ok = False
+    if salt is not None:
+        if strip(salt) == ("attr", ("param", shp.params[0]), "_login_key"):
+            lk = prog.funcs.get(f"{SH}._Security._login_key")
+            salt_ok = lk is not None and login_key_ok(summarize(prog, lk).return_term(), lk.params[0])
+        else:
+            salt_ok = login_key_ok(salt, shp.params[0])
+    sh_ok = len(s_parts) == 3 and strip(s_parts[0]) == ("param", shp.params[1]) and s_inner is not None and strip(s_inner) == ("param", shp.params[2]) and salt_ok
+    ctx.ob("C19.a", shp.qual, sh_ok, "SmartHome password field = sha256(loginId ‖ sha256(password).hex ‖ login key of the selected server).hex", func=shp.qual, file=file,
+           construct="SmartHome encrypt_password", detail={"term": show(sht)[:260]},
+           fail=f"the SmartHome login password derivation is `{show(sht)[:200]}` (the salt must be the login key of the selected server: the china key on the china server)")
     bb = ctx.fn(f"{NH}._build_request_body")
     bt = summarize(prog, bb).return_term()
     # body.update(data) / body |= data / {**body, **data}: the caller's fields are merged over the base body
